@@ -6,7 +6,8 @@
 (* complete tree and TLC visits all trees up to MaxEls elements:           *)
 (*                                                                         *)
 (*   AddProp(type, shape, value)   shape in null / scalar / [] / [v] /     *)
-(*                                 [NULL] / [v, NULL]                      *)
+(*                                 [NULL] / [v, NULL] / arrays with two    *)
+(*                                 NULL entries (ShapeSeq)                 *)
 (*   AddRefProp, AddKey, AddRefKey (keybindings incl. nested references)   *)
 (*   AddEmb(instance | class)      embedded object, depth <= MaxDepth      *)
 (*   AddQual, AddMeth, AddParm                                             *)
@@ -31,6 +32,11 @@
 (*                     examples: NULL entry in a numeric array, CR in a    *)
 (*                     string, char16 keybinding, boolean FALSE parameter  *)
 (*                     value).                                             *)
+(* CimWireMCNulls.cfg  every valued element kind x arrays with 0, 1 and    *)
+(*                     >= 2 NULL entries (all ShapeSeq shapes): must pass. *)
+(* CimWireMCSharedNull.cfg  W = one shared VALUE.NULL DOM node: must FAIL. *)
+(* CimWireMCEmbEmpty.cfg    W = empty embedded-object array parsed as NULL:*)
+(*                     must FAIL.                                          *)
 (* CimWireMCSim.cfg    larger constants, -simulate: abstract trees for the *)
 (*                     binding (the harness concretises them).             *)
 (***************************************************************************)
@@ -70,6 +76,18 @@ VtOf(t) == CASE t = "string" -> "str" [] t = "numeric" -> "int" [] OTHER -> t
 TokOf(t, v) == IF t \in {"string", "char16"} THEN "s:" ELSE v
 ClsOf(t, v) == IF t \in {"string", "char16"} THEN v ELSE <<>>
 
+(* array shapes: which entries hold the value v and which are NULL.  The    *)
+(* shapes cover the NULL multiplicities of CimWire!NullMult: none ("v",    *)
+(* "vv"), one ("n", "vn", "nv"), many: adjacent ("nn"), separated by a     *)
+(* value ("nvn"), before / after values ("nnv", "vnn"), alternating with a *)
+(* value at the end ("nvnv")                                               *)
+ShapeSeq(sh) ==
+  CASE sh = "v" -> <<"v">> [] sh = "n" -> <<"n">>
+    [] sh = "vn" -> <<"v", "n">> [] sh = "nv" -> <<"n", "v">>
+    [] sh = "vv" -> <<"v", "v">> [] sh = "nn" -> <<"n", "n">>
+    [] sh = "nvn" -> <<"n", "v", "n">> [] sh = "nnv" -> <<"n", "n", "v">>
+    [] sh = "vnn" -> <<"v", "n", "n">> [] sh = "nvnv" -> <<"n", "v", "n", "v">>
+
 Valued(el, t, sh, v) ==
   LET one == <<TokOf(t, v)>>
       base == [el EXCEPT !.type = t] IN
@@ -78,13 +96,12 @@ Valued(el, t, sh, v) ==
     [] sh = "scalar" -> [base EXCEPT !.arr = "s", !.val = one, !.vt = <<VtOf(t)>>,
                                      !.cls = <<ClsOf(t, v)>>]
     [] sh = "empty"  -> [base EXCEPT !.arr = "a"]
-    [] sh = "v"      -> [base EXCEPT !.arr = "a", !.val = one, !.vt = <<VtOf(t)>>,
-                                     !.cls = <<ClsOf(t, v)>>]
-    [] sh = "n"      -> [base EXCEPT !.arr = "a", !.val = <<"~">>, !.vt = <<"~">>,
-                                     !.cls = << <<>> >>]
-    [] sh = "vn"     -> [base EXCEPT !.arr = "a", !.val = one \o <<"~">>,
-                                     !.vt = <<VtOf(t), "~">>,
-                                     !.cls = <<ClsOf(t, v), <<>> >>]
+    [] OTHER ->
+       LET q == ShapeSeq(sh) IN
+       [base EXCEPT !.arr = "a",
+          !.val = [k \in DOMAIN q |-> IF q[k] = "v" THEN TokOf(t, v) ELSE "~"],
+          !.vt  = [k \in DOMAIN q |-> IF q[k] = "v" THEN VtOf(t) ELSE "~"],
+          !.cls = [k \in DOMAIN q |-> IF q[k] = "v" THEN ClsOf(t, v) ELSE <<>>]]
 
 Top == els[cur[Len(cur)]]
 TopI == cur[Len(cur)]
@@ -144,21 +161,37 @@ AddRefProp ==
           ELSE /\ els' = es1 /\ cur' = cur /\ last' = Len(els) + 1
   /\ UNCHANGED <<mode, nattr>>
 
+(* embedded objects: scalar, arrays with one object (and a NULL entry      *)
+(* before / after it), and - where the configuration's Shapes say so - the *)
+(* values WITHOUT an object: NULL, NULL array, EMPTY array                 *)
+EmbShapes == {"scalar", "v", "vn"} \cup (Shapes \cap {"nv", "empty", "null", "nulla"})
+EmbSeq(sh) == IF sh = "scalar" THEN <<"v">>
+              ELSE IF sh \in {"empty", "null", "nulla"} THEN <<>> ELSE ShapeSeq(sh)
 AddEmb ==
-  /\ Len(els) + 1 < MaxEls /\ "string" \in Types
+  /\ Room /\ "string" \in Types
   /\ Top.et \in {"inst", "class"} /\ Top.lvl < MaxDepth /\ NKids(Top, "prop") < MaxKids
-  /\ \E nm \in Free(Top, "prop"), kind \in {"inst", "class"}, sh \in {"scalar", "v", "vn"} :
-       LET p0 == [Blank(KidPath(Top, "prop", nm), "prop", nm, Top.lvl)
+  /\ \E nm \in Free(Top, "prop"), kind \in {"inst", "class"}, sh \in EmbShapes :
+       LET q == EmbSeq(sh)
+           objs == {k \in DOMAIN q : q[k] = "v"}
+           p0 == [Blank(KidPath(Top, "prop", nm), "prop", nm, Top.lvl)
                     EXCEPT !.type = "string",
                            !.emb = IF kind = "inst" THEN "instance" ELSE "object",
-                           !.arr = IF sh = "scalar" THEN "s" ELSE "a",
-                           !.val = IF sh = "vn" THEN <<"@emb", "~">> ELSE <<"@emb">>,
-                           !.vt = IF sh = "vn" THEN <<"object", "~">> ELSE <<"object">>,
-                           !.cls = IF sh = "vn" THEN << <<>>, <<>> >> ELSE << <<>> >>]
-       IN /\ els' = AddChild(els, TopI, "prop", p0)
-                      \o <<Blank(p0.path \o "emb:0/", kind, "c", Top.lvl + 1)>>
-          /\ cur' = Append(cur, Len(els) + 2)
-          /\ last' = Len(els) + 1
+                           !.arr = IF sh \in {"scalar", "null"} THEN "s" ELSE "a",
+                           !.isnull = sh \in {"null", "nulla"},
+                           !.val = [k \in DOMAIN q |-> IF q[k] = "v" THEN "@emb" ELSE "~"],
+                           !.vt = [k \in DOMAIN q |-> IF q[k] = "v" THEN "object" ELSE "~"],
+                           !.cls = [k \in DOMAIN q |-> <<>>]]
+       IN IF objs = {}
+          THEN /\ els' = AddChild(els, TopI, "prop", p0)
+               /\ cur' = cur
+               /\ last' = Len(els) + 1
+          ELSE LET k == CHOOSE k \in objs : TRUE      \* exactly one object
+                   ix == IF k = 1 THEN "0" ELSE "1" IN
+               /\ Len(els) + 1 < MaxEls
+               /\ els' = AddChild(els, TopI, "prop", p0)
+                           \o <<Blank(p0.path \o "emb:" \o ix \o "/", kind, "c", Top.lvl + 1)>>
+               /\ cur' = Append(cur, Len(els) + 2)
+               /\ last' = Len(els) + 1
   /\ UNCHANGED <<mode, nattr>>
 
 QualTargets ==
@@ -297,6 +330,12 @@ Mutants(el) ==
               [el EXCEPT !.val[1] = IF el.val[1] = "~" THEN "i:0" ELSE "~"],
               [el EXCEPT !.val[1] = "other"]}
         ELSE {})
+  \cup (IF NullMult(el.val) = "many"      \* one of several NULL entries lost
+        THEN LET f == CHOOSE i \in NullPos(el.val) : \A j \in NullPos(el.val) : i <= j
+                 drop(q) == SubSeq(q, 1, f - 1) \o SubSeq(q, f + 1, Len(q))
+             IN {[el EXCEPT !.val = drop(el.val), !.vt = drop(el.vt),
+                            !.cls = drop(el.cls)]}
+        ELSE {})
   \cup (IF HasPg(el.et) /\ el.pg # "N"
         THEN {[el EXCEPT !.pg = IF el.pg = "T" THEN "F" ELSE "T"],
               [el EXCEPT !.pg = "N"]} ELSE {})
@@ -315,6 +354,14 @@ WNull   == [WFixed EXCEPT !.nullOk = FALSE]
 WCr     == [WFixed EXCEPT !.x = AsIs]
 WChar16 == [WFixed EXCEPT !.char16Kb = FALSE]
 WBool   == [WFixed EXCEPT !.boolPval = FALSE]
+(* not the pinned tree but a realistic refactoring of CIMProperty.tocimxml *)
+(* (the VALUE.NULL node hoisted out of the loop): CimWireMCSharedNull.cfg  *)
+(* must FAIL ImplMeetsReq with an array property holding two NULL entries  *)
+WSharedNull == [WFixed EXCEPT !.nullNode = "shared"]
+(* parse_embeddedObject testing `not val` instead of `val is None`: an      *)
+(* EMPTY array of embedded objects reads back as NULL                      *)
+(* (CimWireMCEmbEmpty.cfg must FAIL ImplMeetsReq)                          *)
+WEmbEmpty == [WFixed EXCEPT !.embEmpty = "null"]
 
 (* a wrong reading of DSP0201 (PROPAGATED defaulting to true): the          *)
 (* requirement must reject it (CimWireMCBadNorm.cfg must FAIL)              *)
